@@ -256,6 +256,29 @@ func ruleOwner(c *Ctx) {
 			}
 		})
 	}
+	// who may shrink the array part: Next() recognises "array exhausted" by index == len(array), so a plain
+	// store must never shorten it (clearing fields during a traversal is allowed); only the list helper
+	// Remove re-slices
+	for _, fn := range p.srcFuncs {
+		if fn.Pkg == nil || fn.Pkg.Pkg.Path() != luaPath {
+			continue
+		}
+		allInstrs(fn, func(in ssa.Instruction) {
+			st, ok := isFieldStore(in, fields["array"])
+			if !ok {
+				return
+			}
+			sl, ok := st.Val.(*ssa.Slice)
+			if !ok {
+				return
+			}
+			if _, ok := loadsField(sl.X, fields["array"]); !ok {
+				return
+			}
+			c.Sites++
+			c.check(fname(fn) == "(*LTable).Remove", R, "array-shrinker:"+fname(fn), p.ipos(in), "the array part is re-sliced only by the list helper Remove", fname(fn)+" shortens the array part on a plain store: next(t, k) for the key just cleared no longer recognises the end of the array part and skips the first hash key (traversal with clearing misses keys)")
+		})
+	}
 	// in each owner: the insertion is followed by the not-present test that updates k2i and keys together
 	for _, spec := range []struct{ fn, m string }{{"(*LTable).RawSetString", "strdict"}, {"(*LTable).RawSetH", "dict"}} {
 		fn := c.need(R, "lua", spec.fn)
